@@ -1,0 +1,201 @@
+//go:build verif
+
+package main
+
+import (
+	"bufio"
+	"encoding/hex"
+	"fmt"
+	"math/big"
+	"net"
+	"os"
+	"strconv"
+	"strings"
+	"testing"
+
+	"github.com/containernetworking/cni/pkg/skel"
+
+	"github.com/AliyunContainerService/terway/plugin/driver/types"
+	"github.com/AliyunContainerService/terway/rpc"
+)
+
+// TestVerifDriver is the line-protocol driver of the verification harness for this package
+// (package main cannot be imported).  Reads operations from $VERIF_IN, writes one canonical outcome
+// per line to $VERIF_OUT.
+//
+//	nc.dp <v|e|m> <strip 0|1> <trunk 0|1>
+//	nc.parse <v|e|m> <strip> <argIf hex> <podIngress> <podEgress> <rtIngressBits> <rtEgressBits> <conf>
+//	conf = ip4;cidr4;gw4;ip6;cidr6;gw6;ifhex;dr;extra;machex;trunk;vid   (addresses in hex, cidr = addr/len | bad | -)
+func TestVerifDriver(t *testing.T) {
+	in, out := os.Getenv("VERIF_IN"), os.Getenv("VERIF_OUT")
+	if in == "" || out == "" {
+		t.Skip("VERIF_IN / VERIF_OUT not set")
+	}
+	fi, err := os.Open(in)
+	if err != nil {
+		t.Fatal(err)
+	}
+	defer fi.Close()
+	fo, err := os.Create(out)
+	if err != nil {
+		t.Fatal(err)
+	}
+	defer fo.Close()
+	w := bufio.NewWriter(fo)
+	defer w.Flush()
+	sc := bufio.NewScanner(fi)
+	sc.Buffer(make([]byte, 1<<20), 1<<26)
+	for sc.Scan() {
+		fmt.Fprintln(w, verifOp(sc.Text()))
+	}
+}
+
+func verifIPType(s string) rpc.IPType {
+	switch s {
+	case "v":
+		return rpc.IPType_TypeVPCIP
+	case "e":
+		return rpc.IPType_TypeVPCENI
+	}
+	return rpc.IPType_TypeENIMultiIP
+}
+
+var verifDPNames = map[types.DataPath]string{types.VPCRoute: "vpcRoute", types.PolicyRoute: "policyRoute", types.IPVlan: "ipvlan",
+	types.ExclusiveENI: "exclusiveENI", types.Vlan: "vlan"}
+
+func verifAddr(h string) string {
+	if h == "-" || h == "" {
+		return ""
+	}
+	n, ok := new(big.Int).SetString(h, 16)
+	if !ok {
+		return h
+	}
+	return net.IP(n.FillBytes(make([]byte, len(h)/2))).String()
+}
+
+func verifCidr(c string) string {
+	switch c {
+	case "-":
+		return ""
+	case "bad":
+		return "not-a-cidr"
+	}
+	p := strings.SplitN(c, "/", 2)
+	return verifAddr(p[0]) + "/" + p[1]
+}
+
+func verifHexIP(ip net.IP) string {
+	if ip == nil {
+		return "-"
+	}
+	if v4 := ip.To4(); v4 != nil {
+		return hex.EncodeToString(v4)
+	}
+	return hex.EncodeToString(ip.To16())
+}
+
+func verifHexNet(n *net.IPNet) string {
+	if n == nil {
+		return "-"
+	}
+	ones, _ := n.Mask.Size()
+	return verifHexIP(n.IP) + "/" + strconv.Itoa(ones)
+}
+
+func verifOp(line string) (res string) {
+	defer func() {
+		if r := recover(); r != nil {
+			res = "panic"
+		}
+	}()
+	f := strings.Fields(line)
+	if len(f) == 0 {
+		return "bad-op"
+	}
+	switch f[0] {
+	case "nc.dp":
+		if len(f) != 4 {
+			return "bad-op"
+		}
+		strip := types.VlanStripType(types.VlanStripTypeFilter)
+		if f[2] == "1" {
+			strip = types.VlanStripTypeVlan
+		}
+		return verifDPNames[getDatePath(verifIPType(f[1]), strip, f[3] == "1")]
+	case "nc.parse":
+		if len(f) != 9 {
+			return "bad-op"
+		}
+		c := strings.Split(f[8], ";")
+		if len(c) != 12 {
+			return "bad-op"
+		}
+		ifn, _ := hex.DecodeString(strings.TrimPrefix(c[6], "-"))
+		argIf, _ := hex.DecodeString(strings.TrimPrefix(f[3], "-"))
+		pin, _ := strconv.ParseUint(f[4], 10, 64)
+		peg, _ := strconv.ParseUint(f[5], 10, 64)
+		rin, _ := strconv.Atoi(f[6])
+		reg, _ := strconv.Atoi(f[7])
+		vid, _ := strconv.Atoi(c[11])
+		alloc := &rpc.NetConf{
+			BasicInfo: &rpc.BasicInfo{
+				PodIP:       &rpc.IPSet{IPv4: verifAddr(c[0]), IPv6: verifAddr(c[3])},
+				PodCIDR:     &rpc.IPSet{IPv4: verifCidr(c[1]), IPv6: verifCidr(c[4])},
+				GatewayIP:   &rpc.IPSet{IPv4: verifAddr(c[2]), IPv6: verifAddr(c[5])},
+				ServiceCIDR: &rpc.IPSet{},
+			},
+			ENIInfo:      &rpc.ENIInfo{MAC: "", Trunk: c[10] == "1", Vid: uint32(vid)}, // no MAC: no device lookup
+			Pod:          &rpc.Pod{Ingress: pin, Egress: peg},
+			IfName:       string(ifn),
+			DefaultRoute: c[7] == "1",
+		}
+		if c[8] != "-" {
+			for _, r := range strings.Split(c[8], "+") {
+				alloc.ExtraRoutes = append(alloc.ExtraRoutes, &rpc.Route{Dst: verifCidr(r[2:])})
+			}
+		}
+		conf := &types.CNIConf{VlanStripType: types.VlanStripTypeFilter}
+		if f[2] == "1" {
+			conf.VlanStripType = types.VlanStripTypeVlan
+		}
+		conf.RuntimeConfig.Bandwidth.IngressRate = rin
+		conf.RuntimeConfig.Bandwidth.EgressRate = reg
+		cfg, err := parseSetupConf(&skel.CmdArgs{IfName: string(argIf)}, alloc, conf, verifIPType(f[1]))
+		if err != nil {
+			return "err"
+		}
+		a4, a6, g4, g6 := "-", "-", "-", "-"
+		if cfg.ContainerIPNet != nil {
+			a4, a6 = verifHexNet(cfg.ContainerIPNet.IPv4), verifHexNet(cfg.ContainerIPNet.IPv6)
+		}
+		if cfg.GatewayIP != nil {
+			g4, g6 = verifHexIP(cfg.GatewayIP.IPv4), verifHexIP(cfg.GatewayIP.IPv6)
+		}
+		var rs []string
+		for _, r := range cfg.ExtraRoutes {
+			fam := "6"
+			if r.Dst.IP.To4() != nil {
+				fam = "4"
+			}
+			rs = append(rs, fam+":"+verifHexNet(&r.Dst)+">"+verifHexIP(r.GW))
+		}
+		routes := "-"
+		if len(rs) > 0 {
+			routes = strings.Join(rs, "+")
+		}
+		name := "-"
+		if cfg.ContainerIfName != "" {
+			name = hex.EncodeToString([]byte(cfg.ContainerIfName))
+		}
+		b := func(x bool) string {
+			if x {
+				return "1"
+			}
+			return "0"
+		}
+		return fmt.Sprintf("a4=%s a6=%s gw4=%s gw6=%s routes=%s in=%d eg=%d dr=%s if=%s trunk=%s vid=%d dp=%s", a4, a6, g4, g6, routes,
+			cfg.Ingress, cfg.Egress, b(cfg.DefaultRoute), name, b(cfg.StripVlan), cfg.Vid, verifDPNames[cfg.DP])
+	}
+	return "bad-op"
+}
